@@ -27,7 +27,11 @@ CLAIMED = {
             "(known findings D1, D11 excluded and re-confirmed by witnesses on every run)."),
     "C09": ("PARTIAL. Proved: nothing is offered while pausing/paused; a status request changes only statuses (frame); "
             "while pausing no task event takes the workflow back to an offering status; pause/resume rows of the table. "
-            "Tested, not proved: outcome equality with the unpaused twin run; paused exactly when the last action reports.",
+            "A pause request changes nothing but statuses (whole-state equality after forgetting statuses); a report "
+            "completes its task identically whether running or pushed to pausing; a task event fails/cancels the pausing "
+            "workflow exactly when it would the running one; resume finds the staged entries untouched; C02b gives 'paused "
+            "exactly when nothing is in flight' for the formal protocol. Tested, not proved: outcome equality with the "
+            "unpaused twin run (whole-call commutation). Witness: a condition reading $__state.status sees the pause.",
             "Reference provider protocol (atomic poll) assumed by the twin-run monitor; known finding D5a."),
     "C10": ("Proved for every evaluator and rerun-free history: after canceling/canceled the status stays in "
             "{canceling, canceled, failed}, never succeeded; nothing is offered unless failed; canceled is final (so "
@@ -95,8 +99,11 @@ CLAIMED.update({
             "definitions, plus an independent reference construction from the definition."),
     "C17": ("PARTIAL. Proved: a rerun is refused (state unchanged) unless the workflow is completed and every request names an "
             "existing execution; an accepted rerun leaves status resuming, output reset, and only appends to the history. "
-            "Tested, not proved: exactly the requested tasks are re-executed; convergence to the clean outcome; never stuck "
-            "(known findings D8, D9, D21).",
+            "The effect of an accepted rerun is characterised exactly: the candidate set (default: last terminal abended "
+            "records; explicit: requests minus those collapsed into an upstream request), the equation for one candidate "
+            "(new record + ready staged entry, or item reset), and the frame (everything else, in particular every other "
+            "staged entry, unchanged); D9 and D8 appear as exact statements. Tested, not proved: convergence to the clean "
+            "outcome (known findings D8, D9, D21).",
             "Twin simulation: fail, default rerun, re-executed actions succeed, compared with the clean run."),
     "C20": ("PARTIAL. Proved about the Gallina model of parse_inline_params and the shorthand normalisations: round trip "
             "parse(render kvs) = kvs for integers, decimals, booleans, null, quoted strings and expressions (restricted class, "
@@ -155,8 +162,10 @@ CLAIMED.update({
             "Known findings D1, D21."),
     "C19": ("PARTIAL. Determinism holds by construction for the model (Gallina functions) and the engine is compared with "
             "that single answer after every API call; proved: offers are sorted by (id, route); the query is the identity in "
-            "every status in which nothing may be offered. Tested, not proved: identical artefacts across interpreter hash "
-            "seeds (subprocess replay, key order included); query idempotence while running.",
+            "every status in which nothing may be offered. Asking again returns the same state and the same answer (up to the __state entry of the "
+            "contexts) for every evaluator that does not read __state and every state without a clean-up entry staged "
+            "before failure (witnesses for both provisos). Tested, not proved: identical artefacts across interpreter hash "
+            "seeds (subprocess replay, key order included).",
             "Hash-seed dependence is a CPython behaviour no Gallina model exhibits."),
 })
 
